@@ -69,18 +69,47 @@ class Engine:
         self.str_constants = {}
         self.cuts = {}
         self.rope_mode = False
+        self.inc_timeout_ms = min(2000, timeout_ms)
+        self.fresh_first = False
+        self.n_fresh = 0
+        self._model = None
+        self._pushed = False
 
     # ---- solver plumbing
     def check(self, *extra):
+        """satisfiability of path condition (and extra).  Two back ends, same verdict:
+        the incremental solver (fast for long chains of cheap branch queries) with a short
+        timeout, then a fresh non-incremental QF_BV solver (bit-blasting with full
+        preprocessing; much faster on wide adders/ITE chains) with the full timeout."""
         t = time.time()
-        if extra:
-            self.solver.push()
-            self.solver.add(*extra)
-            r = self.solver.check()
-            if r != z3.sat:
-                self.solver.pop()
+        self._model = None
+        self._pushed = False
+        if self.fresh_first:
+            r = z3.unknown
         else:
-            r = self.solver.check()
+            self.solver.set("timeout", self.inc_timeout_ms)
+            if extra:
+                self.solver.push()
+                self.solver.add(*extra)
+                r = self.solver.check()
+                if r != z3.sat:
+                    self.solver.pop()
+                else:
+                    self._pushed = True
+            else:
+                r = self.solver.check()
+            if r == z3.sat:
+                self._model = self.solver.model()
+        if r == z3.unknown:
+            s2 = z3.SolverFor("QF_BV")
+            s2.set("timeout", self.timeout_ms)
+            s2.add(self.solver.assertions())
+            if extra:
+                s2.add(*extra)
+            r = s2.check()
+            self.n_fresh += 1
+            if r == z3.sat:
+                self._model = s2.model()
         self.tq += time.time() - t
         self.nq += 1
         if r == z3.unknown:
@@ -89,7 +118,9 @@ class Engine:
 
     def check_pop(self):
         """pop the scope pushed by a `check(extra)` that returned sat"""
-        self.solver.pop()
+        if self._pushed:
+            self.solver.pop()
+            self._pushed = False
 
     def feasible(self, cond):
         r = self.check(cond)
@@ -104,7 +135,7 @@ class Engine:
             raise Inconclusive("solver unknown while building a model")
         if r != z3.sat:
             return None
-        m = self.solver.model()
+        m = self._model
         if cond is not None:
             self.check_pop()
         return m
@@ -466,6 +497,20 @@ class SInt:
                 q, m = (-self)._divmod(-o)
                 return q, -m
             o = SInt(o.t, 1, o.hi)
+        if o.lo == o.hi and (o.lo & (o.lo - 1)) != 0 and not z3.is_bv_value(z3.simplify(self.t)):
+            # constant divisor: fresh quotient/remainder with  a == q*c + m, 0 <= m < c
+            # (a constant multiplier instead of a divider circuit; q, m are uniquely determined)
+            c = o.lo
+            e = cur()
+            qlo, qhi = self.lo // c, self.hi // c
+            wq = width_for(qlo, qhi)
+            wm = width_for(0, c - 1)
+            q = z3.BitVec(e.fresh("divq"), wq)
+            m = z3.BitVec(e.fresh("divm"), wm)
+            w = max(self.w, wq + wm + 1) + 1
+            e.solver.add(z3.SignExt(w - wq, q) * z3.BitVecVal(c, w) + z3.ZeroExt(w - wm, m) == self.ext(w),
+                         z3.ULT(m, c), q >= qlo, q <= qhi)
+            return SInt(q, qlo, qhi), SInt(z3.ZeroExt(1, m), 0, c - 1).norm()
         w = max(self.w, o.w) + 1
         a = self.ext(w)
         b = o.ext(w)
